@@ -240,10 +240,13 @@ where
     }
 
     fn n_bins(&self) -> usize {
-        let mut max_edge = self.min.clone();
-        let mut n_bins = 0;
-        while max_edge <= self.max {
-            max_edge = max_edge + self.bin_width.clone();
+        // The `i`-th edge is computed exactly as in `build`, so that the last
+        // edge built is the first one strictly greater than `max` (for
+        // floating-point types a running sum of `bin_width` can stop at an
+        // edge equal to `max`, or never advance at all).
+        let mut n_bins = 1;
+        while self.min.clone() + T::from_usize(n_bins).unwrap() * self.bin_width.clone() <= self.max
+        {
             n_bins += 1;
         }
         n_bins
